@@ -113,8 +113,12 @@ def c_stab_state(ctx, args):
     n, stabs, fmt = args
     if fmt == 'list':
         arg = (NP.PL(stabs, 2 * n),)
-    elif fmt == 'strings':
-        arg = tuple({0: '', 2: '-'}[p] + ''.join(LET[(g[2 * i], g[2 * i + 1])] for i in range(n)) for g, p in stabs)
+    elif fmt in ('strings', 'gen_strings', 'list_strings', 'tuple_strings'):
+        strs = [{0: '', 2: '-'}[p] + ''.join(LET[(g[2 * i], g[2 * i + 1])] for i in range(n)) for g, p in stabs]
+        # several arguments / one generator / one list / one tuple of descriptions
+        arg = tuple(strs) if fmt == 'strings' else (((x for x in strs),) if fmt == 'gen_strings' else ((list(strs),) if fmt == 'list_strings' else (tuple(strs),)))
+    elif fmt == 'gen_objects':
+        arg = ((NP.P([g, p]) for g, p in stabs),)
     else:
         arg = ([pc.pauli(np.array([{(0, 0): 0, (1, 0): 1, (1, 1): 2, (0, 1): 3}[(g[2 * i], g[2 * i + 1])] for i in range(n)])) if p == 0 else -pc.pauli(np.array([{(0, 0): 0, (1, 0): 1, (1, 1): 2, (0, 1): 3}[(g[2 * i], g[2 * i + 1])] for i in range(n)])) for g, p in stabs],)
     commute = all(sum(a[0][2 * i + 1] * b[0][2 * i] - a[0][2 * i] * b[0][2 * i + 1] for i in range(n)) % 2 == 0 for a in stabs for b in stabs)
@@ -235,7 +239,7 @@ def run(ctx):
         if rng.random() < 0.15:      # make two of them anticommute
             stabs.append([m[2 * rng.randrange(n)][0], 0])
             stabs = [s for s in stabs]
-        fmt = rng.choice(['list', 'strings', 'objects'])
+        fmt = rng.choice(['list', 'strings', 'objects', 'gen_strings', 'gen_objects', 'list_strings', 'tuple_strings'])
         do(ctx, 'stab_state', [n, stabs, fmt], nontrivial=('s', it) if L < n and any(p for _, p in stabs) else None)
         ctx.res.count('L%d_of_N%d' % (L, n))
     # histories on one reused object: lazily kept results must follow every in-place update
